@@ -152,11 +152,29 @@ def run_big(case, r):
             if i in (0, 1, 63, 64, 255, 256, n - 1):
                 b.create_data_array("m%03d" % i, "t", data=np.array([float(i)])).metadata = s_
         da.metadata = skeep
+        # one array referenced by many tags, multi tags (also as positions / feature data) and groups
+        star = b.create_data_array("star", "t", data=np.array([1.0, 2.0]))
+        other = b.create_data_array("other", "t", data=np.array([3.0]))
+        holders = []
+        for i in range(n // 4):
+            t_ = b.create_tag("t%03d" % i, "t", [0.0])
+            t_.references.append(other)
+            t_.references.append(star)
+            if i % 3 == 0:
+                t_.create_feature(star, nix.LinkType.Untagged)
+            m_ = b.create_multi_tag("m%03d" % i, "t", star if i % 2 else other)
+            m_.references.append(star)
+            g_ = b.create_group("g%03d" % i, "t")
+            g_.data_arrays.append(star)
+            g_.data_arrays.append(other)
+            holders.append(i)
         nlinks = len(da.sources)
         r.evals += 1
         r.nontrivial += 1
         del b.sources["parent"]
         del f.sections["root"]
+        star_id = star.id
+        del b.data_arrays["star"]
         for stage in ("in-session", "after-reopen"):
             b = f.blocks["blk"]
             da = b.data_arrays["sig"]
@@ -177,9 +195,31 @@ def run_big(case, r):
             if [s_.name for s_ in b.sources] != ["keep"] or [s_.name for s_ in f.sections] != ["skeep"]:
                 r.viol("C04|big|%s|wrong-survivors" % stage, "sources %r sections %r" % ([s_.name for s_ in b.sources], [s_.name for s_ in f.sections]), {})
                 return
+            for i in holders:
+                t_, m_, g_ = b.tags["t%03d" % i], b.multi_tags["m%03d" % i], b.groups["g%03d" % i]
+                refs = [[x.name for x in t_.references], [x.name for x in m_.references], [x.name for x in g_.data_arrays]]
+                # a feature whose data was deleted stays (it is owned by the tag) but no longer yields the array
+                feats = 0
+                for ft in t_.features:
+                    try:
+                        d_ = ft.data
+                        if d_ is not None and d_.id == star_id:
+                            feats += 1
+                    except Exception:
+                        pass
+                try:
+                    posname = m_.positions.name
+                except Exception:
+                    posname = None
+                r.transitions += 1
+                if refs != [["other"], [], ["other"]] or feats != 0 or posname != (None if i % 2 else "other"):
+                    r.viol("C04|big|delete-array-referenced-by-%d-holders|%s|links-remain-or-others-lost" % (3 * len(holders), stage),
+                           "after deleting an array referenced by %d tags / multi tags / groups, holder %d has references %r, %d features still yielding the array, positions %r" % (
+                               3 * len(holders), i, refs, feats, posname), {})
+                    return
             f.flush()
             present = rawdigest.entity_ids(f._h5file)
-            gone = [k for k in kids if k in present]
+            gone = [k for k in kids + [star_id] if k in present]
             if gone:
                 r.viol("C04|big|%s|raw-scan|deleted-entity-still-linked" % stage,
                        "%d deleted sources are still reachable in the HDF5 file, e.g. at %s" % (len(gone), present[gone[0]][:2]), {})
